@@ -61,6 +61,17 @@ def gen(tier, seed):
             evals.append(("eval", rnd.choice(FORMS + BAD).format(a=1, b=2, c=3, i=-1, o=1, l="later")))
         inp = []
         specs.append(("eval", feat, src, inp, pre + evals + tail))
+    # a COMPLETE instruction followed by surplus text - text that lexes (another operand, another instruction, a directive)
+    # and text on which the lexer itself fails (literal out of range, unknown character, unterminated string, unknown
+    # directive, an extension mnemonic without the flag): every such line is refused, with no effect
+    surplus = ["r1", "#1", "x10", "v", "add r2 r2 #1", ".end", ".fill x1", "halt", "#99999", "x12345", "$oops", "\"abc", ".bogus",
+               "push r1", "rets", "`", "\u00e9", "#-32769", "0x", "#", "r8x"]
+    complete = ["add r0 r0 #5", "not r1 r0", "st r0 v", "add r0 r0 r0", "jmp r1", "ld r3 w", "lea r4 later", "putn", "and r5 r5 #0",
+                "str r1 r2 #1", "ret"]
+    for c in complete:
+        for x in surplus:
+            for feat in (0, 1):
+                specs.append(("surplus", feat, SRC, [], [("move", ("reg", 1), 0x3003), ("move", ("reg", 2), 0x3002), ("eval", c + " " + x)] + tail))
     for text in BAD + [f.format(a=1, b=2, c=3, i=5, o=-2, l="later") for f in FORMS]:
         for pre in ([], [("stepinto", 2)], [("goto", ("addr", 0x3005))]):
             for feat in (0, 1):
